@@ -46,6 +46,9 @@ CHECKS["C08"] = ("model_checking", "bounded-exhaustive exploration of the real c
 CHECKS["C09"] = ("model_checking", "bounded-exhaustive exploration of the real code: all chord tables of 1-3 chords over 3 participants (v2 with both release rules and per-chord disabled layers; v1 groups), for every pressed subset every press permutation x gap vector from {0,1,T-1,T,T+1} x release permutation (with a non-chord key at every position), plus all generic histories of D steps; ChordSpec reference for the determinate cases and an accounting invariant for all",
   "No explored execution swallows or doubles a key, fires a chord that was not pressed or is disabled on the active layer, misses a chord whose keys were all pressed within the timeout, delivers non-chord keys out of order, breaks the release rule, or leaves the chord output pressed.",
   "release latency slack T+8+2*events ticks; v1 release timing beyond the upper bound not checked (documented as inconsistent); undefined-superset cases only via accounting", "DESIGN.md §4 C09")
+CHECKS["C18"] = ("model_checking", "bounded-exhaustive exploration of the real code: all sequences of N operations over a 12-operation alphabet (physical on-press/on-release keys, macro item, TCP path, two hold-for-duration lengths) with inter-operation gaps around the durations, a 0/1-tick TCP race family, an on-idle family through the idle-loop twin with activity at every offset, and sequence-completion taps; checked against the VkeySpec boolean model with exact timed-release obligations",
+  "For every explored operation sequence the number of press pulses and the final state of the virtual key equal the model's (same effect from every source), hold-for-duration releases exactly D ticks after the most recent activation and never earlier, on-idle fires exactly once and not before the idle time.",
+  "operations >= 3 ticks apart in the main family; operations landing within 2 ticks of a pending timed release are don't-cares", "DESIGN.md §4 C18")
 NOT_YET = {}
 props = [json.loads(l) for l in open('/verif/properties.jsonl')]
 hooks_commits = subprocess.run(["git","-C","/repo","log","--format=%h %s"],capture_output=True,text=True).stdout.splitlines()
